@@ -19,6 +19,69 @@ REPO = Path(os.environ.get("VERIF_REPO", "/repo"))
 PKG = "funtracks"
 
 
+class _SplitConditionalEffects(ast.NodeTransformer):
+    """`stmt(A(..) if c else B(..))`  ->  `if c: stmt(A(..))  else: stmt(B(..))` for simple statements whose conditional
+    expression has a call in one of its arms.  The analyses are statement based: without the split both calls would
+    count as executed.  Only applied to the action packages; positions are kept."""
+
+    SIMPLE = (ast.Expr, ast.Assign, ast.AnnAssign, ast.AugAssign, ast.Return)
+
+    def _first(self, stmt):
+        for n in ast.walk(stmt):
+            if isinstance(n, (ast.Lambda, ast.ListComp, ast.SetComp, ast.DictComp, ast.GeneratorExp)):
+                continue
+            if isinstance(n, ast.IfExp) and any(isinstance(x, ast.Call) for arm in (n.body, n.orelse) for x in ast.walk(arm)):
+                # not inside a comprehension / lambda
+                return n
+        return None
+
+    def _inside_scope(self, stmt, target) -> bool:
+        for n in ast.walk(stmt):
+            if isinstance(n, (ast.Lambda, ast.ListComp, ast.SetComp, ast.DictComp, ast.GeneratorExp)) and any(x is target for x in ast.walk(n)):
+                return True
+        return False
+
+    def _split(self, stmt, depth=0):
+        if not isinstance(stmt, self.SIMPLE) or depth > 3:
+            return [stmt]
+        ie = self._first(stmt)
+        if ie is None or self._inside_scope(stmt, ie):
+            return [stmt]
+
+        def with_arm(arm):
+            import copy as _copy
+
+            class Rep(ast.NodeTransformer):
+                def visit_IfExp(self, n):
+                    return _copy.deepcopy(arm) if n is ie_copy[0] else self.generic_visit(n)
+
+            new = _copy.deepcopy(stmt)
+            # locate the copy of `ie` by position in walk order
+            idx = [i for i, n in enumerate(ast.walk(stmt)) if n is ie][0]
+            ie_copy = [list(ast.walk(new))[idx]]
+            return Rep().visit(new)
+
+        a, b = with_arm(ie.body), with_arm(ie.orelse)
+        node = ast.If(test=ie.test, body=self._split(a, depth + 1), orelse=self._split(b, depth + 1))
+        return [ast.copy_location(node, stmt)]
+
+    def _block(self, body):
+        out = []
+        for s in body:
+            s = self.generic_visit(s) if not isinstance(s, self.SIMPLE) else s
+            out.extend(self._split(s))
+        return out
+
+    def generic_visit(self, node):
+        for fld in ("body", "orelse", "finalbody"):
+            b = getattr(node, fld, None)
+            if isinstance(b, list) and b and isinstance(b[0], ast.stmt):
+                setattr(node, fld, self._block(b))
+        for h in getattr(node, "handlers", []) or []:
+            h.body = self._block(h.body)
+        return node
+
+
 class AnalysisError(Exception):
     """The analysis lost its subject (parse failure, vanished anchor, floor not met)."""
 
@@ -139,6 +202,9 @@ class Program:
                 tree = ast.parse(text, filename=str(path))
             except SyntaxError as e:  # pragma: no cover
                 raise AnalysisError(f"cannot parse {path}: {e}") from e
+            if ".user_actions" in name or ".actions" in name:
+                tree = _SplitConditionalEffects().visit(tree)
+                ast.fix_missing_locations(tree)
             self.modules[name] = Module(name, path, tree, text, is_pkg=is_pkg)
         if len(self.modules) < 30:
             raise AnalysisError(f"only {len(self.modules)} modules parsed under {self.src}")
@@ -555,12 +621,19 @@ class Program:
             init = c.methods.get("__init__")
             if init is None:
                 continue
-            for n in ast.walk(init.node):
-                if isinstance(n, ast.Call):
-                    nm = n.func.id if isinstance(n.func, ast.Name) else None
-                    if nm in prims or nm in groups:
-                        out.append(c)
-                        break
+            # constructions may live in helper methods of the class that the constructor calls
+            found = False
+            for m in c.methods.values():
+                for n in ast.walk(m.node):
+                    if isinstance(n, ast.Call):
+                        nm = n.func.id if isinstance(n.func, ast.Name) else None
+                        if nm in prims or nm in groups:
+                            found = True
+                            break
+                if found:
+                    break
+            if found:
+                out.append(c)
         return out
 
     def annotators(self) -> list[ClassInfo]:
